@@ -24,6 +24,7 @@ type Gate interface {
 
 type gateImpl struct {
 	count         uint16
+	initialCount  uint16 // what a new gate expects: restored by Clear
 	arrived       uint16
 	gateCondition *sync.Cond
 	canceled      bool
@@ -121,12 +122,19 @@ func (g *gateImpl) Clear() {
 	g.canceled = false
 	g.arrived = 0
 	g.err = nil
+	// a count set for an earlier generation must not refuse (or release) the arrivals of the next one
+	g.count = g.initialCount
+	if g.arrived == g.count {
+		// as in SetCount: the restored count may already be met
+		g.gateCondition.Broadcast()
+	}
 }
 
 // NewGate returns new gate instance.
 func NewGate(count uint16) Gate {
 	return &gateImpl{
 		count:         count,
+		initialCount:  count,
 		gateCondition: sync.NewCond(&sync.Mutex{}),
 	}
 }
